@@ -327,3 +327,6 @@ func (s *SUT) Count(table string) int {
 	_ = s.Raw.QueryRow("SELECT count(*) FROM " + table).Scan(&n)
 	return n
 }
+
+// SetVirtual (re)installs the virtual clock at t.
+func SetVirtual(t time.Time) { vclock.Install(t) }
